@@ -38,6 +38,8 @@ ASSUMPTIONS = [
     "zero values for an arity [1..N] attribute (empty string) are read as 'attribute absent' and are not used as too-few mutants",
     "in <default> context the admissible attributes are the schema's documented projection: attributes minus name/class minus (nodefault)",
     "leak reports (LeakSanitizer) are informational: leaks are not part of the statement",
+    "UBSan 'applying zero offset to null pointer' (NULL+0 in C translation units, e.g. empty arrays of a model without actuators) "
+    "is the same benign idiom class as memcpy(NULL,...,0), which the build already excludes (-fno-sanitize=nonnull-attribute); counted, not a violation",
     "sanitizer reports raised inside mj_makeData/mj_step of a model that loaded are outside the statement (which is about the "
     "load calls); they are listed in the evidence (run_phase_reports) for the engine properties and do not decide C37",
 ]
@@ -306,7 +308,8 @@ def _run_batch(job):
                 if sig in seen:
                     continue
                 seen.add(sig)
-                res["events"].append(dict(type="sanitizer", index=idx, sig=sig, where=where, text=text[:3500], run_phase=in_run))
+                res["events"].append(dict(type="sanitizer", index=idx, sig=sig, where=where, text=text[:9000], run_phase=in_run,
+                                          site=_alloc_site(r["err"])))
         elif not already:
             res["events"].append(dict(type="died", index=idx, rc=r["rc"], stderr=r["err"][-1500:], run_phase=in_run))
         res["summary"]["execs"] = res["summary"].get("execs", 0) + (idx - pos + 1 if not finished else 0)
@@ -354,8 +357,8 @@ def _native_signature(data, scratch, flavour, rc, stderr, api=0, errsz=1000):
             if "LeakSanitizer" in kind or text.startswith("SUMMARY"):
                 continue
             sig, where = san_signature(kind, text)
-            if where != "shim":
-                out.append(("sanitizer:" + sig, text[:3000]))
+            if where != "shim" and "applying zero offset to null pointer" not in text.splitlines()[0]:
+                out.append(("sanitizer:" + sig, text[:3000] + "\n...\n" + "\n".join(l for l in r["err"].splitlines() if "/src/" in l)[:4000]))
     except Exception as ex:          # noqa: BLE001  (attribution is best effort)
         out.append(("crash:exit-status(%s,%s)" % (rc, flavour), "native re-run failed: %r" % ex))
     if not out:
@@ -410,7 +413,9 @@ def _record_event(ctx, flavour, seed, e):
         ctx.violation(sig, detail)
     elif t == "sanitizer":
         if RESOURCE_RE.search(e["sig"]) or RESOURCE_RE.search(e["text"].splitlines()[0]):
-            _resource(ctx, "oom@" + _alloc_site(e["text"]), data, detail)
+            _resource(ctx, "oom@" + (e.get("site") or _alloc_site(e["text"])), data, detail)
+        elif "applying zero offset to null pointer" in e["text"].splitlines()[0]:
+            ctx.count("fuzz_benign_null_plus_zero")       # see ASSUMPTIONS
         elif e["where"] == "shim":
             ctx.count("fuzz_shim_reports")
             ctx.extra.setdefault("shim_reports", [])
@@ -458,10 +463,10 @@ def _fuzz(ctx, scratch, M):
     jobs = []
     pos = 0
     while pos < n_asan:
-        jobs.append((exe_a, "asan", lists, fseed, pos, min(b_asan, n_asan - pos), scratch, 12, exe_r))
+        jobs.append((exe_a, "asan", lists, fseed, pos, min(b_asan, n_asan - pos), scratch, 10, exe_r))
         pos += b_asan
     while pos < n_asan + n_rel:
-        jobs.append((exe_r, "rel", lists, fseed, pos, min(b_rel, n_asan + n_rel - pos), scratch, 12, exe_r))
+        jobs.append((exe_r, "rel", lists, fseed, pos, min(b_rel, n_asan + n_rel - pos), scratch, 10, exe_r))
         pos += b_rel
     results = nat.pmap(_run_batch, jobs, nthreads=int(os.environ.get("VERIF_C37_THREADS", "8")))
     classes, msgs, unfinished = {}, {}, 0
@@ -496,7 +501,7 @@ def _fuzz(ctx, scratch, M):
 
 # ================================================================================================ schema oracle
 
-_SCHEMA_PHRASES = ("unrecognized element", "unrecognized attribute", "unique element", "is required", "required attribute missing",
+_SCHEMA_PHRASES = ("Schema violation", "unrecognized element", "unrecognized attribute", "unique element", "is required", "required attribute missing",
                    "invalid keyword", "duplicate keyword", "does not have enough data", "has too much data", "bad format in attribute",
                    "problem reading attribute", "must have exactly", "may have at most", "at most one of", "must be specified together",
                    "requires attribute", "must be specified", "repeated element", "missing element", "number is too large")
@@ -787,7 +792,17 @@ def worker(case):
                 else:
                     P.count("schema_host_rejected_nonschema")
                     cov(kind, "conforming", "rejected-other")
-                continue
+                # second chance: the same chain with the attributes the hand-written reader insists on (coverage of the other rules)
+                root, node = G.host((decl, ctx), enrich=True)
+                if M.validate(root):
+                    continue
+                hx = mjcf_doc.serialize(root)
+                h = R.load(hx)
+                P.count("schema_documents")
+                if h["parse"] != "ok" or _contract(P, h, hx, kind, "host"):
+                    P.count("schema_enriched_host_rejected")
+                    continue
+                P.count("schema_hosts_enriched")
             cov(kind, "conforming", "accepted" if h["compile"] == "ok" else "accepted-parse")
             P.count("schema_hosts_compiled" if h["compile"] == "ok" else "schema_hosts_parse_only")
             # conforming variants
